@@ -117,6 +117,50 @@ theorem selected_fields_complete (frags : List Frag) (vars : Vars) (ha : acyclic
       (by simpa using hmd) (by simpa using hpat)
     simpa using this
 
+/-- **selected_fields_exact** — soundness added to completeness: the listed paths are EXACTLY the selected
+    field paths (through fragments, `@skip/@include` honoured) with at most `maxdepth` components
+    (`0`/`None` = unbounded) that match the pattern — as sets; for every selection, fragment set,
+    variables, `maxdepth` and pattern. -/
+theorem selected_fields_exact (frags : List Frag) (vars : Vars) (ha : acyclic frags = true)
+    (hfb : ∀ f ∈ frags, boundL vars f.sels = true) (nm : String → String)
+    (hfk : ∀ f ∈ frags, keysL nm f.sels = true)
+    (sub : List Sel) (hb : boundL vars sub = true) (hk : keysL nm sub = true)
+    (fuel : Nat) (hfuel : potL (wOf (weights frags)) sub + 1 ≤ fuel) (md : Nat) (pat : List String → Bool) :
+    ∃ out, selectedFields fuel sub frags vars md pat [] = .ok out ∧
+      ∀ q, q ∈ out ↔ (IsPath frags vars sub q ∧ (md = 0 ∨ q.length ≤ md) ∧ pat q = true) := by
+  obtain ⟨out, ho, hcomp⟩ := selected_fields_complete frags vars ha hfb nm hfk sub hb hk fuel hfuel md pat
+  refine ⟨out, ho, ?_⟩
+  intro q
+  constructor
+  · intro hq
+    cases sub with
+    | nil => simp [selectedFields] at ho; subst ho; cases hq
+    | cons s ss =>
+      have ho' : selectedPaths fuel (s :: ss) frags vars md pat [] = .ok out := ho
+      have hpre : md = 0 ∨ ([] : List String).length < md := by
+        cases md with
+        | zero => exact Or.inl rfl
+        | succ m => exact Or.inr (by simp)
+      obtain ⟨p, hqe, hp, hbnd, hpat⟩ := selectedPaths_sound frags vars nm hfk md pat fuel (s :: ss) [] out ho' hk hpre q hq
+      simp at hqe
+      subst hqe
+      exact ⟨hp, hbnd, hpat⟩
+  · rintro ⟨hp, hbnd, hpat⟩
+    exact hcomp q hp hbnd hpat
+
+/-- soundness alone, for the record: every listed path is a selected path of the reference semantics -/
+theorem selected_fields_sound (frags : List Frag) (vars : Vars) (ha : acyclic frags = true)
+    (hfb : ∀ f ∈ frags, boundL vars f.sels = true) (nm : String → String)
+    (hfk : ∀ f ∈ frags, keysL nm f.sels = true)
+    (sub : List Sel) (hb : boundL vars sub = true) (hk : keysL nm sub = true)
+    (fuel : Nat) (hfuel : potL (wOf (weights frags)) sub + 1 ≤ fuel) (md : Nat) (pat : List String → Bool)
+    (out : List (List String)) (ho : selectedFields fuel sub frags vars md pat [] = .ok out) :
+    ∀ q ∈ out, IsPath frags vars sub q ∧ (md = 0 ∨ q.length ≤ md) ∧ pat q = true := by
+  obtain ⟨out', ho', hex⟩ := selected_fields_exact frags vars ha hfb nm hfk sub hb hk fuel hfuel md pat
+  rw [ho] at ho'
+  cases ho'
+  exact fun q hq => (hex q).mp hq
+
 /-- the same for a direct field of an operation of a valid document, with the driver's fuel — the call
     `selected_fields(field, fragments=doc.fragments, variables=vars, maxdepth=md, pattern=pat)` -/
 theorem selected_fields_complete_op (doc : Doc) (vars : Vars) (hv : Valid doc vars) (nm : String → String)
